@@ -105,6 +105,19 @@ mod verif_witness {
             c.persist_if_changed(&f, want).unwrap();
             assert!(c.verify().is_ok(), "{what}: --check fails right after a normal run");
         }
+        // an output path that is a symbolic link to an up-to-date file is up to date (and is written THROUGH when it is not)
+        #[cfg(unix)]
+        {
+            let real = d.join("real_lib.rs"); let link = d.join("lib.rs");
+            std::fs::write(&real, &generated).unwrap(); std::os::unix::fs::symlink(&real, &link).unwrap();
+            let t = age(&real);
+            let mut c = AppWriter::check_mode(); c.persist_if_changed(&link, &generated).unwrap();
+            assert!(c.verify().is_ok(), "symlinked output: --check reports an up-to-date file as outdated");
+            let mut u = AppWriter::update_mode(); u.persist_if_changed(&link, &generated).unwrap();
+            assert_eq!(mtime(&real), t, "symlinked output: re-running on unchanged content rewrote the file behind the link");
+            u.persist_if_changed(&link, b"changed").unwrap();
+            assert_eq!(std::fs::read(&real).unwrap(), b"changed", "symlinked output: the new content did not reach the file");
+        }
         println!("VERIF-BOUNDED test=every_near_miss_of_the_generated_content_is_outdated evaluations={} bound=hand-picked near misses of the generated content (prefix, extension, CRLF, same length, large-file tail/middle, empty)", variants.len());
         let _ = std::fs::remove_dir_all(d);
     }
